@@ -629,6 +629,10 @@ def dfs_unit(repo, th, cd, prefix, depth, v, rng, deadline, confirm):
     sample_every = 20011
 
     def report(path, text_sig=None):
+        if len(found) >= 40:  # enough confirmed witnesses in this unit: count, do not re-run
+            cnt["flags_beyond_cap_not_rerun"] = cnt.get("flags_beyond_cap_not_rerun", 0) + 1
+            return
+        found.add(len(found))
         case = {"kind": "failsafe", "env": env, "th": th, "cd": cd, "events": [list(p) for p in path]}
         viol, _ = run_failsafe_case(repo, case)
         if viol is None:
